@@ -15,8 +15,8 @@ PROPERTY = "C16"
 RULE = ("unit = (transform family, dimension); paths = one call per point set and variant; non-trivial = points that are not the origin; "
         "distinct by (dimension, variant, point)")
 ASSUMPTIONS = ["dimensions 2..12 (statement's range)", "round-trip tolerance 1e-12 (barycentric), 1e-11 relative (n-sphere; 3e-8 for points within 1e-6 of a coordinate axis/plane, where an inverse-cosine based conversion is ill-conditioned)"]
-BOUNDS = {"quick": "d in 2..12; {-1,0,1}^d exhaustively for d<=5 (quick) ", "thorough": "{-1,0,1}^d exhaustively for d<=8, {-2..2}^d for d<=4"}
-TECHNIQUE = "exhaustive lattice of points (axes, planes, origin, signs, zero tails) in every dimension 2..12, closed-form oracle"
+BOUNDS = {"quick": "d in 2..12; {-1,0,1}^d exhaustively for d<=5; call histories of length <= 3 (9-call alphabet) for d in 2..7", "thorough": "{-1,0,1}^d exhaustively for d<=8, {-2..2}^d for d<=4; call histories of length <= 4 (d <= 6) / 3 (d <= 12)"}
+TECHNIQUE = "exhaustive lattice of points (axes, planes, origin, signs, zero tails) in every dimension 2..12, closed-form oracle; plus every call history up to depth 3-4 over a 9-call alphabet on freshly re-executed modules (differential oracle: the same call in a fresh state)"
 LEVEL_TEXT = "every lattice point of every dimension is converted by the real functions; unit edges, affinity, inverse round trips, L1 sums, scale invariance, radius and angle ranges are decided in closed form"
 LEVEL_NOTE = "angles themselves are not compared where the statement leaves them undefined (zero tails), only ranges and the round trip"
 KE = ("exc", "msg", "api", "dim")
